@@ -60,24 +60,59 @@ Definition enc_class (r : wres) : list Z :=
 
 Definition w0 : world := mkW [] 0.
 
-(* [#events] events(4 each) [#results] (leaves(3) class)* [-1] [#events] events [#results] leaves(3)*
-   first block: the model, second block: the property (Spec/CtxSpec.v)                      *)
-Definition eval_case (var : variant) (items : list (list use_t * body_oc)) : list Z :=
-  if shape_ok var (deco_for var) then
-    let '(rs, w) := with_seq var (d_prog (deco_for var)) items w0 in
-    let '(sj, sl) := spec_seq var items in
-    [zn (List.length (jrev w))] ++ flat_map enc_event (journal w)
-    ++ [zn (List.length rs)] ++ flat_map (fun r => enc_leaves (classify r) ++ enc_class r) rs
-    ++ [(-1)%Z]
-    ++ [zn (List.length sj)] ++ flat_map enc_event sj
-    ++ [zn (List.length sl)] ++ flat_map enc_leaves sl
-  else [(-2)%Z].
+(* ---- decoration under the circumstances of Model/SafeCtx.v `dctx` ------------------------------------- *)
 
-(* decoration time: [0] accepted / [1; class path] raised  ++ [-1] ++ [1] demanded accepted / [0] rejected *)
-Definition eval_deco (var : variant) (k : fkind) : list Z :=
-  (match grun_block (d_guards (deco_for var)) k with
-   | None => [0%Z]
-   | Some c => 1%Z :: enc_path c
+(* the kind of `def` each decorator is meant for *)
+Definition kind_of (var : variant) : fkind := match var with Sync => FGenerator | Async => FAsyncGenerator end.
+
+Definition decorate (var : variant) (x : dctx) : gres := grun_block (d_guards (deco_for var)) x.
+
+(* with statements over contextmanager(f) / asynccontextmanager(f) - the decorated function WITHOUT the
+   wrapper, which is what an early `return contextmanager(f)` of the decorator hands back *)
+Definition plain_use (var : variant) (u : use_t) (body : body_t) (w : world) : wres * world :=
+  with_gen var (gen_of (u_id u) (Some (u_args u)) (use_beh u)) body w.
+
+Fixpoint plain_nest (var : variant) (us : list use_t) (body : body_t) (x0 : val) (w : world) : wres * world :=
+  match us with
+  | [] => body x0 w
+  | u :: us' => plain_use var u (fun x w' => plain_nest var us' body x w') w
+  end.
+
+Fixpoint plain_seq (var : variant) (items : list (list use_t * body_oc)) (w : world) : list wres * world :=
+  match items with
+  | [] => ([], w)
+  | (us, o) :: rest =>
+      let (r, w1) := plain_nest var us (simple_body (match us with u :: _ => u_id u | [] => 0 end) o) 0 w in
+      let (rs, w2) := plain_seq var rest w1 in
+      (r :: rs, w2)
+  end.
+
+(* [#events] events(4 each) [#results] (leaves(3) class)* [-1] [#events] events [#results] leaves(3)*
+   first block: the model, second block: the property (Spec/CtxSpec.v; it does not depend on the switch or on -O).
+   [-4; class path] ++ [-1] ++ second block: the decoration itself raised;  [-2]: no model of what the decorator returns *)
+Definition eval_case (var : variant) (enabled optimize : bool) (items : list (list use_t * body_oc)) : list Z :=
+  let spec_block :=
+    let '(sj, sl) := spec_seq var items in
+    [(-1)%Z] ++ [zn (List.length sj)] ++ flat_map enc_event sj ++ [zn (List.length sl)] ++ flat_map enc_leaves sl in
+  let enc (r : list wres * world) :=
+    let '(rs, w) := r in
+    [zn (List.length (jrev w))] ++ flat_map enc_event (journal w)
+    ++ [zn (List.length rs)] ++ flat_map (fun r => enc_leaves (classify r) ++ enc_class r) rs ++ spec_block in
+  match decorate var (mkDctx (kind_of var) enabled optimize) with
+  | GFall => if shape_ok var (deco_for var) then enc (with_seq var (d_prog (deco_for var)) items w0) else [(-2)%Z]
+  | GReturned EarlyContextmanagerF => match var with Sync => enc (plain_seq var items w0) | Async => [(-2)%Z] end
+  | GReturned EarlyAsyncContextmanagerF => match var with Async => enc (plain_seq var items w0) | Sync => [(-2)%Z] end
+  | GReturned EarlyBareF => [(-2)%Z]
+  | GRaised c => (-4)%Z :: enc_path c ++ spec_block
+  end.
+
+(* decoration time: [0] the wrapper is built / [1; class path] raised / [2; what] an early return without the wrapper
+   ++ [-1] ++ [1] demanded accepted / [0] rejected *)
+Definition eval_deco (var : variant) (k : fkind) (enabled optimize : bool) : list Z :=
+  (match decorate var (mkDctx k enabled optimize) with
+   | GFall => [0%Z]
+   | GRaised c => 1%Z :: enc_path c
+   | GReturned r => [2%Z; match r with EarlyBareF => 0 | EarlyContextmanagerF => 1 | EarlyAsyncContextmanagerF => 2 end%Z]
    end) ++ [(-1)%Z; if spec_accepts var k then 1%Z else 0%Z].
 
 (* metadata / composition flags of the regenerated decorator: [wraps; async def; return shape] *)
